@@ -1,19 +1,28 @@
-"""Regenerate every Generated/*.lean file from /repo's working tree."""
+"""Regenerate every Generated/*.lean file from /repo's working tree (used by setup.sh).
+
+Every module in this package that defines `generate()` is a translator.
+"""
 import importlib
+import pkgutil
 import sys
 import traceback
 
-MODULES = ["ctx_ir"]
+import translator
 
 
 def main() -> int:
     rc = 0
-    for m in MODULES:
-        try:
-            importlib.import_module(f"translator.{m}").generate()
-        except Exception:
-            traceback.print_exc()
-            rc = 1
+    for m in sorted(pkgutil.iter_modules(translator.__path__), key=lambda m: m.name):
+        if m.name in ("all", "common"):
+            continue
+        mod = importlib.import_module(f"translator.{m.name}")
+        if hasattr(mod, "generate"):
+            try:
+                mod.generate()
+                print(f"translator.{m.name}: ok")
+            except Exception:
+                traceback.print_exc()
+                rc = 1
     return rc
 
 
